@@ -466,7 +466,21 @@ def sc_sparse_lu(V, P, cfg):
     n, ac, xc = cfg["n"], cfg["ac"], cfg["xc"]
     A = _fin(V, _general(V, "A", n, ac))
     X = _xstar(V, n, xc)
-    if cfg.get("prior"):
+    if cfg.get("prior") == "inplace":
+        # the SAME sparse matrix object is given new values in place (A.data[:] = ...) and handed to update() again
+        S0 = _mk_sparse(V, _fin(V, _general(V, "A0", n, ac)))
+        s = SolverSparseLU(S0)
+        if V.symbolic:
+            S0._dense[...] = np.asarray(A)
+        else:
+            import scipy.sparse as _sps
+            new_ = _sps.csc_matrix(np.asarray(A))
+            if S0.data.shape == new_.data.shape and np.array_equal(S0.indices, new_.indices):
+                S0.data[:] = new_.data
+            else:       # (a witness with an exact zero entry: other pattern, no in-place update possible)
+                S0 = new_
+        s.update(S0)
+    elif cfg.get("prior"):
         s = SolverSparseLU(_mk_sparse(V, _fin(V, _general(V, "A0", n, ac))))
         s.update(_mk_sparse(V, A))
     else:
@@ -1359,6 +1373,7 @@ def items(tier):
         add("diagonal", "reupdate-n2-%s" % tag, n=2, ac=ac, xc=xc, prior=True)
         add("lu", "reupdate-n2-p10-%s" % tag, n=2, perm=[1, 0], ac=ac, xc=xc, prior=True)
         add("sparselu", "reupdate-n2-%s" % tag, n=2, ac=ac, xc=xc, prior=True)
+        add("sparselu", "reupdate-same-object-n2-%s" % tag, n=2, ac=ac, xc=xc, prior="inplace")
     # update history on one solver object: success then failure, failure then success
     for tag, ac, xc in DATA:
         if tag == "rc":
